@@ -164,13 +164,19 @@ def detlabels(o, prefix):
 
 def permute_storage(o, rng, mode="random", contiguous=False):
     """t.transpose_(*perm) on every tensor of o: same labelled content, another stored order"""
+    if mode == "reorder" and is_tn(o):
+        # same tensors inserted in the opposite order (other tids, other traversal order of the maps)
+        tids = list(o.tensor_map)
+        popped = [o.pop_tensor(tid) for tid in tids]
+        for t in reversed(popped):
+            o.add_tensor(t, virtual=True)
     ts = [o] if is_tensor(o) else list(o.tensor_map.values())
     n = 0
     for t in ts:
         if t.ndim < 2 or len(set(t.inds)) != t.ndim:
             continue
         inds = list(t.inds)
-        if mode == "reverse":
+        if mode in ("reverse", "reorder"):
             new = inds[::-1]
         elif mode == "roll":
             new = inds[1:] + inds[:1]
@@ -315,23 +321,28 @@ class Canon:
             props.append("%s=%s" % (p, v))
         return _h(props)
 
-    def struct(self, node=None, weak=False):
+    def struct(self, node=None, weak=0):
         """JSON-able structural fingerprint (strings, lists, dicts; no floats).
-        weak=True: what survives a change of gauge -- class, extra properties, the outer labels
-        with their sizes, dtypes, and the tag sets of the tensors."""
+        weak=1: what survives a change of gauge -- class, extra properties, the outer labels
+        with their sizes, dtypes, and the tag sets of the tensors;
+        weak=2: the same with only the union of all tags."""
         node = node or self.root
         if node.kind == "T":
             return {"k": "T", "ts": [self._tsig(node.tens[0])]}
         if node.kind == "N":
             if weak:
+                weak = int(weak)
                 sizes = {}
                 for ti in node.tens:
                     for i, d in zip(ti["inds"], ti["data"].shape):
                         sizes[i] = d
                 out = sorted("%s:%d" % (self.cname(i), sizes[i]) for i in _outer(node.tens))
-                return {"k": "N", "cls": node.cls, "props": self._props(node),
-                        "ts": ["outer=" + ",".join(out), "dtypes=" + ",".join(sorted({ti["data"].dtype.name for ti in node.tens})),
-                               "tags=" + ";".join(sorted(",".join(ti["tags"]) for ti in node.tens))]}
+                ts = ["outer=" + ",".join(out), "dtypes=" + ",".join(sorted({ti["data"].dtype.name for ti in node.tens}))]
+                if weak == 1:
+                    ts.append("tags=" + ";".join(sorted(",".join(ti["tags"]) for ti in node.tens)))
+                else:   # level "value": which tensors were merged may follow the insertion order; all tags survive
+                    ts.append("alltags=" + ",".join(sorted({g for ti in node.tens for g in ti["tags"]})))
+                return {"k": "N", "cls": node.cls, "props": self._props(node), "ts": ts}
             return {"k": "N", "cls": node.cls, "props": self._props(node), "ts": sorted(self._tsig(t) for t in node.tens)}
         if node.kind == "num":
             return {"k": "num", "ts": ["%s" % (tuple(node.num.shape),)]}
@@ -436,14 +447,20 @@ def _node_dist(a, b, amap, tol, dense):
 def compare(ca, cb, tol=1e-8, dense=False, cap=2000):
     """quantised distance between two canonical results, minimised over the bijections of
     machine generated labels compatible with the colour classes"""
-    if [len(c) for c in ca.classes] != [len(c) for c in cb.classes]:
+    cla_, clb_ = ca.classes, cb.classes
+    if dense:
+        # summed labels do not matter for the contracted value: only free labels that stay open
+        ia, ib = _inner_of(ca.root), _inner_of(cb.root)
+        cla_ = [c2 for c2 in ([i for i in c if i not in ia] for c in ca.classes) if c2]
+        clb_ = [c2 for c2 in ([i for i in c if i not in ib] for c in cb.classes) if c2]
+    if [len(c) for c in cla_] != [len(c) for c in clb_]:
         return 999999
     best = 999999
-    perms = [itertools.permutations(c) for c in cb.classes]
+    perms = [itertools.permutations(c) for c in clb_]
     n = 0
     for combo in itertools.product(*perms):
         amap = {}
-        for cla, clb in zip(ca.classes, combo):
+        for cla, clb in zip(cla_, combo):
             amap.update(dict(zip(cla, clb)))
         try:
             d = _node_dist(ca.root, cb.root, amap, tol, dense)
